@@ -1,6 +1,7 @@
 package mon
 
 import (
+	"bufio"
 	"bytes"
 	"errors"
 	"io"
@@ -104,7 +105,8 @@ type failingReader struct{}
 func (failingReader) Read([]byte) (int, error) { return 0, ErrInjected }
 
 // ShapedLoader is a memory loader whose templates hand out their source through readers of different, all
-// legitimate, shapes: everything at once, a byte at a time, in halves, and the last bytes together with io.EOF.
+// legitimate, shapes: everything at once, a byte at a time, in halves, the last bytes together with io.EOF, and readers that have other
+// methods next to Read (a buffered reader whose Size is its buffer's, one whose Len counts lines, a bytes.Buffer).
 // The shape is a function of the template's name and text, so that a replayed case meets the same reader.
 type ShapedLoader struct {
 	Templates map[string]string
@@ -122,7 +124,15 @@ func (t *shapedTemplate) Contents() io.Reader {
 		h = (h ^ uint32(c)) * 16777619
 	}
 	var r io.Reader = strings.NewReader(t.src)
-	switch (h >> 7) % 6 {
+	switch (h >> 7) % 9 {
+	case 5:
+		// a reader with methods that have a meaning of their own: Size is the size of a buffer, not of the source
+		return bufio.NewReaderSize(r, 16)
+	case 6:
+		// ... Len counts lines (io.Reader says nothing about a Len method)
+		return &lineCountReader{r: r, lines: strings.Count(t.src, "\n")}
+	case 7:
+		return bytes.NewBufferString(t.src)
 	case 1:
 		return iotest.OneByteReader(r)
 	case 2:
@@ -134,6 +144,21 @@ func (t *shapedTemplate) Contents() io.Reader {
 	}
 	return r
 }
+
+// lineCountReader is a reader whose Len method reports how many lines are left, and whose Size is the number of
+// characters of the source.
+type lineCountReader struct {
+	r     io.Reader
+	lines int
+}
+
+func (l *lineCountReader) Read(p []byte) (int, error) {
+	n, err := l.r.Read(p)
+	l.lines -= bytes.Count(p[:n], []byte("\n"))
+	return n, err
+}
+func (l *lineCountReader) Len() int    { return l.lines }
+func (l *lineCountReader) Size() int64 { return int64(l.lines) }
 
 func (l *ShapedLoader) Load(name string) (stick.Template, error) {
 	src, ok := l.Templates[name]
